@@ -281,7 +281,8 @@ def run_wtests(pid: str, spec: dict, wd: str):
         if v["prop"] in (pid, "harness"):
             viol.append({"mechanism": "w-tests:" + v["mechanism"], "message": f"[{v['test']}] {v['message']}",
                          "witness": {"kind": "w-tests", "test": v["test"], "detail": v.get("detail")}})
-    counts = {"w-tests:" + k: n for k, n in d["counts"].items() if k.startswith(pid + ".")}
+    prefixes = tuple(spec.get("counts", [pid + "."]))
+    counts = {"w-tests:" + k: n for k, n in d["counts"].items() if k.startswith(prefixes)}
     tail = [ln for ln in r.stdout.splitlines() if " passed" in ln or " failed" in ln][-1:]
     return viol, counts, reasons, {"summary": tail[0] if tail else "", "contract_firings_all_properties": len(d["violations"])}
 
